@@ -78,6 +78,17 @@ def job_split_algebra(prefix, which):
         for ob in obs:
             ob.name = f'{prefix}/extract/{ob.name}'
         rep.take(obs)
+        raised = getattr(TV.extract_split, 'raised', [])
+        rep.add(f'{prefix}/extract/no-raise.miss-branch-of-_increment_and_space_time_levy_area', 'no-raise', 'discharged' if not raised else 'refuted', 'pyvc-exec',
+                model=None if not raised else {'raised': raised[:3]})
+        combos = set()
+        for r_ in recs:
+            c_ = TV.canon(r_)
+            combos.add((c_.get('have_H'), c_.get('is_left')))
+        need = {(True, True), (True, False), (False, True), (False, False)}
+        rep.add(f'{prefix}/extract/paths-cover(have_H,is_left)', 'post', 'discharged' if need <= combos else 'refuted', 'pyvc-exec',
+                model=None if need <= combos else {'missing': [str(x) for x in sorted(need - combos, key=str)]},
+                statement='the extracted paths cover both Levy modes and both children (otherwise the algebra obligations would be vacuous)')
         TV.split_obligations(rep, recs, prefix, which)
     return Job('split-algebra', fn)
 
